@@ -460,34 +460,7 @@ func isNullPredicate(f *ssa.Function) bool {
 // mustReachFromBlock: every path from the start of b to an exit executes a target instruction.
 // A Return that is itself a target counts.
 func mustReachFromBlock(b *ssa.BasicBlock, target func(ssa.Instruction) bool) (bool, ssa.Instruction) {
-	seen := map[*ssa.BasicBlock]bool{b: true}
-	var bad ssa.Instruction
-	var walk func(b *ssa.BasicBlock) bool
-	walk = func(b *ssa.BasicBlock) bool {
-		for _, in := range b.Instrs {
-			if target(in) {
-				return true
-			}
-			switch in.(type) {
-			case *ssa.Return:
-				bad = in
-				return false
-			case *ssa.Panic:
-				return true
-			}
-		}
-		for _, s := range b.Succs {
-			if seen[s] {
-				continue
-			}
-			seen[s] = true
-			if !walk(s) {
-				return false
-			}
-		}
-		return true
-	}
-	return walk(b), bad
+	return mustReachAt(b, 0, target, false)
 }
 
 // R03.2 nil never enters an operation value
